@@ -574,6 +574,9 @@ def register(M):
         is_vec = isinstance(v, Vec)
         els = v.els() if is_vec else [El(v.d, False)]
         src, sunit = v.dtype, v.unit
+        if code == 'f8' and src in ('i8', 'u1') and is_vec and any(X.data_atoms(e.d) for e in els if e.d not in (NONE_EL, OOB)):
+            # integer data converted to float64: exact up to 2**53 only (recorded; the rules that care look for it)
+            interp.event('int-to-float', node=node)
         out = []
         for e in els:
             d = e.d
